@@ -132,8 +132,29 @@ def aggregate_equiv_case(gname, g, agg):
     return fn
 
 
+def killed_script_case(sig):
+    """a script whose shell is killed by a signal has not succeeded"""
+    def fn(pr):
+        ts = {"gen": {"build": 'echo "s gen" >> "$ZLOG"\nkill -%s $$\nsleep 5' % sig}, "lib": {"dependencies": ["gen"], "build": logging_build("lib")}, "g": {"dependencies": ["lib"]}, "app": {"dependencies": ["g"], "build": logging_build("app")}, "docs": {"build": logging_build("docs")}, "all": {"dependencies": ["app", "docs"]}}
+        pr.write("zinoma.yml", yml(ts))
+        r = pr.run("all", timeout=30)
+        log = pr.log()
+        if r.timed_out:
+            return {"property": "C07", "expected": "the run ends when gen's shell is killed by SIG%s" % sig, "observed": "no exit in 30 s", "zinoma": r.brief()}
+        if r.rc == 0:
+            return {"property": ["C07", "C05"], "expected": "gen's shell was killed by SIG%s: the build failed, zinoma exits non-zero" % sig, "observed": "exit 0; log %s" % log, "zinoma": r.brief()}
+        if "s lib" in log or "s app" in log:
+            return {"property": ["C07", "C01"], "expected": "lib and app depend on gen, whose script was killed by SIG%s: they never start" % sig, "observed": "log %s" % log, "zinoma": r.brief()}
+        pr.clear_log()
+        pr.run("all", timeout=30)
+        if "s gen" not in pr.log():
+            return {"property": "C05", "expected": "a build whose script was killed is run again by the next invocation", "observed": "log %s" % pr.log()}
+        return None
+    return fn
+
+
 def cases(seed):
-    out = []
+    out = [Case("graph", "killed-script-" + s, killed_script_case(s), "script killed by SIG%s counts as failed" % s) for s in ("KILL", "TERM", "SEGV")]
     for (gname, g, roots) in _graphs(seed):
         out.append(Case("graph", "order:" + gname, order_case(gname, g, roots), "one-shot run of graph %s roots %s: terminates, order, exactly once, only the closure" % (gname, roots)))
         builds = [t for t in _closure(g, roots) if g[t][0] == "build"]
